@@ -55,6 +55,18 @@ CHECKS = {
     'C11': ('explicit-state enumeration of the Clafer fragment x constraint trees and deviation-bounded attributes/names; the export is executed by an independent interpreter of the emitted Clafer subset over all 2^n selections',
             'Every model of the fragment up to the bound is exported; the interpreter enumerates the instances of the feature hierarchy under Clafer group/cardinality semantics, which must equal the model\'s configurations; identifier consistency of features and attributes, attribute types and operator translation are checked on every state.',
             'Trusts vmc.lang.clafer (golden self-test); reserved words / leading digits as names are outside the property and not generated.', '3 C11'),
+    'C02': ('explicit-state enumeration of every reader-produced model in the bounded spaces of C01/C04-C09 (library-written documents, independently emitted documents, corpus files); identity-level tree invariant and AST shape invariant evaluated in every state',
+            'Every model returned by any of the six readers within the bounds is walked by object identity: parent pointers, relation back-references, attribute owners, operand positions of every AST node, get_features() against the names written in the source constraint, traversability.',
+            'Reuses the case spaces and emitters of C01, C04-C09 (same trusted base); only the invariant is evaluated here.', '3 C02'),
+    'C04': ('exhaustive enumeration of reference models x all 768 combinations of surface-syntax choices of an independent UVL reference emitter (plus 8 classes of documents invalid by construction), executed on the real ANTLR-based reader',
+            'Documents are generated from a reference model by vmc.lang.uvl (never by the library writer); for every combination of surface choices the reader result must equal the reference model; invalid documents must raise.',
+            'Trusts the reference emitter (golden self-test; token rules checked against the generated lexer). Arithmetic is emitted fully parenthesised.', '3 C04'),
+    'C09': ('exhaustive enumeration of reference models x syntactic freedoms of four independent reference emitters (FeatureIDE, FaMa XML, AFM, Glencoe), must-raise documents, and a complete sweep of the finite shipped corpus against an independent XML walker and the Betty .statistics ground truth',
+            'Each reader is run on documents it did not write: every reference model of the fragment under the covering set (all combinations on rich models) of the format\'s freedoms; the result must equal the reference model; unrepresentable constructs must raise; all corpus files must agree with the independent walker and with Betty\'s statistics.',
+            'Trusts the four emitters and the walker (golden self-tests); where a format is silent both readings are accepted.', '3 C09'),
+    'C12': ('explicit-state enumeration of models x 8 writers with deep snapshots and repeated calls, plus exhaustive enumeration of an environment configuration matrix (PYTHONHASHSEED x locale / default-encoding settings) in fresh interpreter processes compared by digest',
+            'In-process: snapshot (shadow form + AST node identities) before/after every transform(), three consecutive calls and an independently rebuilt copy give identical bytes, returned value == file. Cross-process: every (model, writer) digest of every configuration must equal the reference process; non-ASCII names must survive write -> read in every configuration.',
+            'Hash seed / locale cannot be intercepted in-process, so they are enumerated as configurations (3 seeds x 2 locales quick, 16 x 4 thorough); only the locales on the image are available.', '3 C12'),
 }
 
 REASON_TODO = 'check not built yet in this session; planned in DESIGN.md section 3 (model checking applies)'
